@@ -20,9 +20,14 @@ ASSUMPTIONS = [
 def gen_case(seed, extra=None):
     rng = _random.Random(seed)
     prog = gen.gen_c05_program(rng)
+    symvals = {}
+    if rng.random() < 0.25 and gen.symbolise(prog, rng, "p"):
+        symvals["p"] = rng.choice(["1/3", "1/2", "3/4", "1/10"])
     return {
         "kind": "ir-exec",
         "prog": prog,
+        "symvals": symvals,
+        "transform_categoricals": rng.random() < 0.25,
         "fp_iterations": rng.choice([0, 1, 2, 3, 5, 8, 100, 100, 100, 100, 100, 100]),
         "iterations": rng.choice([3, 4, 6, 8, 12]),
         "runs": rng.choice([8, 12, 20]),
@@ -171,6 +176,8 @@ def summarize(results, tier):
             gf += r.get("guard_false_iterations", 0)
             paths += r.get("path_sigs", 0)
             fp[str(r.get("fp_iterations"))] += 1
+            probes["programs_with_symbolic_probability"] += 1 if r.get("symbolic") else 0
+            probes["programs_with_transform_categoricals"] += 1 if r.get("transform_categoricals") else 0
             tk = r.get("typed_kinds", {})
             for k, v in tk.items():
                 probes["typed_" + k] += v
@@ -208,7 +215,8 @@ def summarize(results, tier):
     }
 
 
-REQUIRED = ["typed_old", "typed_alias", "typed_orig", "programs_with_untyped_assigned_var"]
+REQUIRED = ["typed_old", "typed_alias", "typed_orig", "typed_r", "typed_c", "typed_t", "programs_with_untyped_assigned_var",
+            "programs_with_symbolic_probability"]
 
 
 def probe_failures(cov):
